@@ -348,7 +348,7 @@ def replay(ctx, case):
 
 
 def run_shard(ctx):
-    @ctx.settings(ctx.n(6400, 160000))
+    @ctx.settings(ctx.n(6400, 64000))
     @given(wikis())
     def t(case):
         ctx.announce(case)
